@@ -396,6 +396,9 @@ package lib
 //@   requires rm != nil && rm.RegConfig != nil && rm.RegistrationStats != nil && rm.registeredDecoys != nil && rm.Logger != nil && rm.LivenessTester != nil
 //@   requires !held(&rm.registeredDecoys.m) && rheld(&rm.registeredDecoys.m) == 0
 //@   atcall ValidateRegistration after: snap validated := res0
+// C17: the ingest path has no "client address logging enabled" switch, so it must never format the registrant's
+// address for a log line (GetRegistrationAddress exists only for that purpose)
+//@   atcall GetRegistrationAddress before: assert @C17: false
 //@   atcall ParseOrResolveBlocklisted after: snap covertOK := res0
 //@   atcall PhantomIsLive before: assert @C07: !regPrescanned(reg) && isV4(reg.PhantomIp)
 //@   atcall PhantomIsLive after: snap liveVerdict := res0
